@@ -44,11 +44,15 @@ pub struct P {
     /// native deployments: the coins attached to DepositMargin are a variable of their own
     /// (below / equal to / above the amount argument)
     pub sym_funds: bool,
+    /// the pauser pauses the engine right before the transaction(s) under test
+    pub paused: bool,
+    /// the vAMM's own `insurance_fund` config field points at an outsider account
+    pub vamm_ins_outsider: bool,
 }
 
 impl P {
     pub fn new(prop: &'static str, side: Side, seed: u64) -> P {
-        P { prop, native: false, dec: 9, fees: false, side, wide: false, seed, partial_sym: false, full_prefix: false, concrete_prefix: false, sym_lev: false, sym_lim: false, sym_ratios: false, bystanders: prop == "C10", sym_oracle: false, sym_counter: false, fault: None, real_feed: false, with_trend: false, attached: false, sym_funds: false }
+        P { prop, native: false, dec: 9, fees: false, side, wide: false, seed, partial_sym: false, full_prefix: false, concrete_prefix: false, sym_lev: false, sym_lim: false, sym_ratios: false, bystanders: prop == "C10", sym_oracle: false, sym_counter: false, fault: None, real_feed: false, with_trend: false, attached: false, sym_funds: false, paused: false, vamm_ins_outsider: false }
     }
     pub fn native(mut self) -> P {
         self.native = true;
@@ -128,6 +132,26 @@ impl P {
     pub fn run_cfg(&self, cfg: Cfg) -> Run {
         let mut r = Run::new(cfg, Mon::only(self.prop));
         r.fault = self.fault;
+        if self.vamm_ins_outsider {
+            for vi in 0..r.w.vamms.len() {
+                let t = r.w.vamm_exec(
+                    OWNER,
+                    vi,
+                    &margined_perp::margined_vamm::ExecuteMsg::UpdateConfig {
+                        base_asset_holding_cap: None,
+                        open_interest_notional_cap: None,
+                        toll_ratio: None,
+                        spread_ratio: None,
+                        fluctuation_limit_ratio: None,
+                        margin_engine: None,
+                        insurance_fund: Some("outsider".into()),
+                        pricefeed: None,
+                        spot_price_twap_interval: None,
+                    },
+                );
+                assert!(t.ok, "vamm insurance fund update: {}", t.err);
+            }
+        }
         if self.attached && self.native {
             let d = r.w.d;
             r.w.attach = Some(crate::sx::var("attach", 0, 1_000 * d, 7 * d));
@@ -156,6 +180,14 @@ impl P {
     }
     pub fn sym_funds(mut self) -> P {
         self.sym_funds = true;
+        self
+    }
+    pub fn paused(mut self) -> P {
+        self.paused = true;
+        self
+    }
+    pub fn vamm_ins_outsider(mut self) -> P {
+        self.vamm_ins_outsider = true;
         self
     }
     pub fn trend(mut self) -> P {
@@ -195,6 +227,8 @@ impl P {
             + if self.with_trend { ".trend" } else { "" }
             + if self.attached { ".attached" } else { "" }
             + if self.sym_funds { ".symfunds" } else { "" }
+            + if self.paused { ".paused" } else { "" }
+            + if self.vamm_ins_outsider { ".vamm-ins-outsider" } else { "" }
     }
     fn prefix_mode(&self) {
         symrt::set_full(self.full_prefix);
@@ -328,6 +362,9 @@ pub fn t_liq(p: P, regime: u128) -> impl Fn() {
             let price = crate::sx::var("oracle", 1, 1_000 * d, seed_price);
             let now = r.w.now();
             r.w.set_oracle(price, now);
+        }
+        if p.paused {
+            assert!(r.w.engine_exec(OWNER, &margined_perp::margined_engine::ExecuteMsg::SetPause { pause: true }).ok);
         }
         symrt::set_full(true);
         let lim = p.tx_lim("qlim", d);
@@ -728,6 +765,80 @@ pub fn t_prepaid_closes(p: P) -> impl Fn() {
     }
 }
 
+/// T-pclose: alice opens, bob moves the price, a tight band is configured: alice's ClosePosition
+/// closes only the configured fraction (explored exhaustively, fault injection applies to it);
+/// then the band is lifted and she closes the rest
+pub fn t_pclose(p: P, bob_same: bool) -> impl Fn() {
+    move || {
+        let mut cfg = p.cfg();
+        let d = cfg.d();
+        cfg.partial_ratio = Uint128::new(d / 4);
+        let mut r = p.run_cfg(cfg);
+        p.prefix_mode();
+        let l = Uint128::new(2 * d);
+        let m1 = Uint128::new((30 + (p.seed % 9) as u128) * d);
+        let f = funds_for(&r, &p, m1, l);
+        if !r.step(Op::Open { who: ALICE, side: p.side.clone(), margin: m1, lev: l, limit: Uint128::zero(), funds: f }).tx.ok {
+            return;
+        }
+        r.w.next_block(15);
+        let m2 = Uint128::new((10 + (p.seed % 5) as u128) * d);
+        let bs = if bob_same { p.side.clone() } else { opp(&p.side) };
+        let f = funds_for(&r, &p, m2, l);
+        if !r.step(Op::Open { who: BOB, side: bs, margin: m2, lev: l, limit: Uint128::zero(), funds: f }).tx.ok {
+            return;
+        }
+        r.w.next_block(15);
+        assert!(r.w.update_vamm(0, None, None, None, None, Some(Uint128::new(d / 1000)), None).ok);
+        r.w.next_block(15);
+        symrt::set_full(true);
+        let lim = p.tx_lim("qlim", d);
+        r.step(Op::Close { who: ALICE, limit: lim });
+        r.w.next_block(15);
+        symrt::set_full(false);
+        assert!(r.w.update_vamm(0, None, None, None, None, Some(Uint128::zero()), None).ok);
+        symrt::set_full(true);
+        r.step(Op::Close { who: ALICE, limit: Uint128::zero() });
+    }
+}
+
+/// T-dust: alice opens a long / short of a few raw units at 1x (symbolic, down to 0), bob moves the
+/// price far against her in several steps (so that her whole size is worth less than one raw unit
+/// of quote on the long side), alice closes; then bob closes
+pub fn t_dust(p: P) -> impl Fn() {
+    move || {
+        let mut r = p.run();
+        let d = r.w.d;
+        p.prefix_mode();
+        let one = Uint128::new(d);
+        // (seeded at 10-18 raw units: a size of one raw base unit at the initial price of 10)
+        let m1 = crate::sx::var("dust", 0, 400, 10 + (p.seed % 9) as u128);
+        let f = funds_for(&r, &p, m1, one);
+        symrt::set_full(true);
+        if !r.step(Op::Open { who: ALICE, side: p.side.clone(), margin: m1, lev: one, limit: Uint128::zero(), funds: f }).tx.ok {
+            return;
+        }
+        symrt::set_full(false);
+        r.w.next_block(15);
+        let l = Uint128::new(10 * d);
+        // (each counter-trade stays below half the quote reserve: its own TWAP valuation needs the
+        // base amount to fit into the reserves of the last snapshot)
+        for (who, units) in [(BOB, 45u128), (CAROL, 25), (EVE, 14)] {
+            let m2 = Uint128::new(units * d);
+            let f = funds_for(&r, &p, m2, l);
+            if !r.step(Op::Open { who, side: opp(&p.side), margin: m2, lev: l, limit: Uint128::zero(), funds: f }).tx.ok {
+                break;
+            }
+            r.w.next_block(1000);
+        }
+        symrt::set_full(true);
+        r.step(Op::Close { who: ALICE, limit: Uint128::zero() });
+        r.w.next_block(15);
+        r.step(Op::Liquidate { by: LIQ, trader: ALICE, limit: Uint128::zero() });
+        r.step(Op::Close { who: BOB, limit: Uint128::zero() });
+    }
+}
+
 // ------------------------------------------------------------------------------------------
 // generated histories
 // ------------------------------------------------------------------------------------------
@@ -770,15 +881,21 @@ pub fn t_gen(p: P, idx: u64) -> impl Fn() {
         if two {
             cfg.n_vamms = 2;
         }
+        // further choices come from a second generator so that the histories themselves stay as
+        // they were: a zero liquidation fee, and a symbolic slippage limit on the last operation
+        let mut g2 = Rng(p.seed.wrapping_mul(7_919).wrapping_add(idx) ^ 0xA77AC4);
+        let attach_coins = g2.chance(50);
+        let attach_units = g2.pick(&[1u128, 7, 300]);
+        if g2.chance(15) {
+            cfg.liq_fee = Uint128::zero();
+        }
+        let sym_limit = g2.chance(30);
         let mut r = p.run_cfg(cfg);
         symrt::set_full(false);
         // (only under the cross-cutting monitors: the per-operation oracles of C04-C07, C11, C12
         // measure wallet deltas of calls that attach nothing)
-        if p.native && matches!(p.prop, "C01" | "C02" | "C03" | "C08" | "C10") {
-            let mut g2 = Rng(p.seed.wrapping_mul(7_919).wrapping_add(idx) ^ 0xA77AC4);
-            if g2.chance(50) {
-                r.w.attach = Some(Uint128::new(g2.pick(&[1u128, 7, 300]) * d));
-            }
+        if p.native && matches!(p.prop, "C01" | "C02" | "C03" | "C08" | "C10") && attach_coins {
+            r.w.attach = Some(Uint128::new(attach_units * d));
         }
         if g.chance(15) {
             let f = Uint128::new(g.pick(&[d / 20, d / 10, d / 5]));
@@ -812,9 +929,11 @@ pub fn t_gen(p: P, idx: u64) -> impl Fn() {
                 let margin = if last { amount("gm", d, false, units) } else { Uint128::new(units * d) };
                 let has = r.w.position(vi, who).map(|x| !x.size.value.is_zero()).unwrap_or(false);
                 let funds = if p.native && !has { Some(native_open_funds(&r.w, margin, lev)) } else { None };
-                Op::Open { who, side, margin, lev, limit: Uint128::zero(), funds }
+                let limit = if last && sym_limit { amount("glim", d, true, 0) } else { Uint128::zero() };
+                Op::Open { who, side, margin, lev, limit, funds }
             } else if k < 52 {
-                Op::Close { who, limit: Uint128::zero() }
+                let limit = if last && sym_limit { amount("glim", d, true, 0) } else { Uint128::zero() };
+                Op::Close { who, limit }
             } else if k < 58 {
                 let a = if last { amount("gd", d, false, 5) } else { Uint128::new(g.pick(&[1u128, 5, 30]) * d) };
                 Op::Deposit { who, amount: a, funds: if p.native { Some(a) } else { None } }
